@@ -410,7 +410,7 @@ def viewAfter (reg : Reg) (st : LState) : View :=
 /-- Distinct names are distinct restored objects (and every name is restored). -/
 def memoDistinct (reg : Reg) (st : LState) : Bool :=
   let idx := reg.filterMap fun e => lookupMemo st.memo e.2
-  idx.length == reg.length && idx.eraseDups.length == idx.length
+  idx.length == reg.length && decide idx.Nodup
 
 /-- The Spec of the framework round trip: every name is restored, distinct names are distinct
 objects, every restored object has the class and the fields (literals, strings, references *by
